@@ -54,28 +54,7 @@ func runC06(c *eng.Ctx) {
 	}
 
 	// ---- queue.SetAcknowledgedSeq -------------------------------------------------------------
-	c.Rule("GUARD", qT+".SetAcknowledgedSeq", func() {
-		f := c.Fn(qT + ".SetAcknowledgedSeq")
-		st := c.One(f, eng.StoreField(qT+".acknowledgedSeq"), "store to acknowledgedSeq")
-		v, _ := storedValue(st.Instr)
-		c.Check(p.Desc(v) == "seq", "value", st.Instr, f, "the stored queue ack is the requested sequence", "stores "+p.Desc(v))
-		facts := p.MustFacts(f)
-		fs := facts.At(st.Instr)
-		fwd := facts.Find(fs, "lt", isLoadOf("acknowledgedSeq"), eng.DescIs("seq"))
-		cap := facts.Find(fs, "le", eng.DescIs("seq"), isLoadOf("appendedSeq"))
-		c.Check(len(fwd) > 0, "forward-only", st.Instr, f, "queue ack is stored only under seq > current ack (moves only forward)", "facts: "+strings.Join(facts.Render(fs), " ; "))
-		c.Check(len(cap) > 0, "not-beyond-appended", st.Instr, f, "queue ack is stored only under seq <= appended", "facts: "+strings.Join(facts.Render(fs), " ; "))
-		ls := p.Locks(f, nil)
-		for _, ff := range append(fwd, cap...) {
-			for _, x := range []ssa.Value{ff.X, ff.Y} {
-				if in, ok := x.(ssa.Instruction); ok && eng.LoadField(qT+".acknowledgedSeq", qT+".appendedSeq")(p, in) {
-					ok2, why := ls.SameHold(in, st.Instr, qMu, true)
-					c.Check(ok2, "guard-and-store-one-hold:"+p.Desc(x), in, f, "the compared position is read in the same write hold as the store", why)
-				}
-			}
-		}
-		metaFollows(c, f, st.Instr, v, ".metaPage", qMu)
-	})
+	c.Rule("GUARD", qT+".SetAcknowledgedSeq", func() { queueAckGuard(c) })
 
 	// ---- resets: both positions from one value in one write hold ------------------------------
 	reset := func(fnKey, mu string, fields []string, src string) { resetInOneHold(c, fnKey, mu, fields, src) }
@@ -622,4 +601,31 @@ func gcBoundFromAck(c *eng.Ctx) {
 		}
 	}
 	c.Check(okB, "index-page-bound", ip, f, "index pages are truncated strictly below the page holding the ack entry (ack / entries-per-page)", "bound "+p.Desc(bound))
+}
+
+func queueAckGuard(c *eng.Ctx) {
+	p := c.P
+	isLoadOf := func(field string) func(string, ssa.Value) bool {
+		return func(d string, v ssa.Value) bool { return strings.HasSuffix(d, "."+field) }
+	}
+	f := c.Fn(qT + ".SetAcknowledgedSeq")
+	st := c.One(f, eng.StoreField(qT+".acknowledgedSeq"), "store to acknowledgedSeq")
+	v, _ := storedValue(st.Instr)
+	c.Check(p.Desc(v) == "seq", "value", st.Instr, f, "the stored queue ack is the requested sequence", "stores "+p.Desc(v))
+	facts := p.MustFacts(f)
+	fs := facts.At(st.Instr)
+	fwd := facts.Find(fs, "lt", isLoadOf("acknowledgedSeq"), eng.DescIs("seq"))
+	cap := facts.Find(fs, "le", eng.DescIs("seq"), isLoadOf("appendedSeq"))
+	c.Check(len(fwd) > 0, "forward-only", st.Instr, f, "queue ack is stored only under seq > current ack (moves only forward)", "facts: "+strings.Join(facts.Render(fs), " ; "))
+	c.Check(len(cap) > 0, "not-beyond-appended", st.Instr, f, "queue ack is stored only under seq <= appended", "facts: "+strings.Join(facts.Render(fs), " ; "))
+	ls := p.Locks(f, nil)
+	for _, ff := range append(fwd, cap...) {
+		for _, x := range []ssa.Value{ff.X, ff.Y} {
+			if in, ok := x.(ssa.Instruction); ok && eng.LoadField(qT+".acknowledgedSeq", qT+".appendedSeq")(p, in) {
+				ok2, why := ls.SameHold(in, st.Instr, qMu, true)
+				c.Check(ok2, "guard-and-store-one-hold:"+p.Desc(x), in, f, "the compared position is read in the same write hold as the store", why)
+			}
+		}
+	}
+	metaFollows(c, f, st.Instr, v, ".metaPage", qMu)
 }
